@@ -73,7 +73,7 @@ Fixpoint hex_val (acc : N) (s : bytes) : N :=
 Definition entity_table : list (bytes * bytes) :=
   [ ([108;116], [60]);                       (* lt *)
     ([103;116], [62]);                       (* gt *)
-    ([113;117;111;116;101], [34]);           (* quote *)
+    ([113;117;111;116], [34]);               (* quot *)
     ([97;112;111;115], [39]);                (* apos *)
     ([97;109;112], [38]);                    (* amp *)
     ([84;97;98], [9]);                       (* Tab *)
@@ -86,6 +86,9 @@ Fixpoint assoc_bytes (k : bytes) (t : list (bytes * bytes)) : option bytes :=
   | [] => None
   end.
 
+(* CommonMark: code point 0 is replaced by U+FFFD *)
+Definition nul_to_replacement (v : N) : N := if v =? 0 then RuneError else v.
+
 (* [e] is a whole reference, ampersand and semicolon included *)
 Definition unescape_entity (e : bytes) : bytes :=
   let body := removelast (tl e) in
@@ -94,8 +97,8 @@ Definition unescape_entity (e : bytes) : bytes :=
   | None =>
     match body with
     | 35 :: c :: r =>
-      if (c =? 120) || (c =? 88) then encode_rune (hex_val 0 r)
-      else encode_rune (dec_val 0 (c :: r))
+      if (c =? 120) || (c =? 88) then encode_rune (nul_to_replacement (hex_val 0 r))
+      else encode_rune (nul_to_replacement (dec_val 0 (c :: r)))
     | _ => e
     end
   end.
